@@ -43,7 +43,7 @@ func checkC13(c *Ctx, r *Report) {
 	// consulted by the routes generator only (what the analysis, the reduction and the spec emitters
 	// compute cannot vary with it)
 	defer func() {
-		ruleWhoReads(c, r, "C13.e", w.lookupType("definitions", "RoutesConfig"), "Engine", []string{"generator/routes", "cmd"}, 3,
+		ruleWhoReads(c, r, "C13.e", w.lookupType("definitions", "RoutesConfig"), "Engine", []string{"generator/routes", "cmd"}, 1,
 			"the routing engine selects router templates; a reader elsewhere makes the spec (or the symbol graph) depend on the engine")
 	}()
 	r.NotDecided = append(r.NotDecided,
